@@ -32,4 +32,65 @@ def canonicalCode (lengths : List Nat) (i : Nat) : Option Nat :=
 def reverseBits (code len : Nat) : Nat :=
   (List.range len).foldl (fun acc k => acc + (code / 2 ^ k % 2) * 2 ^ (len - 1 - k)) 0
 
+/-! ### decoding: one symbol from a stream of bits (code words are matched MSB first)
+
+A proof-friendly statement of "read bits until they form the code word of a symbol": after each
+bit the accumulated value is looked up among the canonical code words of that length. -/
+
+/-- least `s < n` with `p s` -/
+def findSym (p : Nat → Bool) : Nat → Option Nat
+  | 0 => none
+  | n + 1 =>
+    match findSym p n with
+    | some s => some s
+    | none => if p n then some n else none
+
+/-- the symbol whose canonical code word is `code` with `len` bits, if any -/
+def symbolOf (lengths : List Nat) (len code : Nat) : Option Nat :=
+  findSym (fun s => lengths.getD s 0 == len && canonicalCode lengths s == some code) lengths.length
+
+/-- decode one symbol; `len`/`code` = bits accumulated so far; returns the symbol and the rest -/
+def decodeSym (lengths : List Nat) : Nat → Nat → Nat → List Nat → Option (Nat × List Nat)
+  | 0, _, _, _ => none
+  | fuel + 1, len, code, bits =>
+    match bits with
+    | [] => none
+    | b :: rest =>
+      match symbolOf lengths (len + 1) (2 * code + b) with
+      | some s => some (s, rest)
+      | none => decodeSym lengths fuel (len + 1) (2 * code + b) rest
+
+/-- the bits of a code word, most significant first -/
+def msbBits (code len : Nat) : List Nat := (List.range len).map fun k => code / 2 ^ (len - 1 - k) % 2
+
+/-- a whole symbol decoder as the lossless specification defines it: a code with one used symbol
+    consumes no bits; otherwise bits are read until they match (at most 15) -/
+def decodeSymbol (lengths : List Nat) (bits : List Nat) : Option (Nat × List Nat) :=
+  if (lengths.filter (· ≠ 0)).length = 1 then some (lengths.findIdx (· ≠ 0), bits)
+  else decodeSym lengths 15 0 0 bits
+
+/-- the lengths a decoder accepts: none above 15, and one used symbol or a complete code -/
+def validLengths (lengths : List Nat) : Bool :=
+  lengths.all (· ≤ 15) &&
+    ((lengths.filter (· ≠ 0)).length == 1 || (decide ((lengths.filter (· ≠ 0)).length ≥ 2) && kraft lengths 15 == 2 ^ 15))
+
+/-! ### the same decoder with the canonical code words computed once (for execution;
+    `decodeSymT_eq` in Lemmas/PrefixFree.lean proves it equal to `decodeSym`) -/
+
+def codeTable (lengths : List Nat) : Array (Option Nat) :=
+  ((List.range lengths.length).map (canonicalCode lengths)).toArray
+
+def symbolOfT (la : Array Nat) (tab : Array (Option Nat)) (len code : Nat) : Option Nat :=
+  findSym (fun s => la.getD s 0 == len && tab.getD s none == some code) la.size
+
+def decodeSymT (la : Array Nat) (tab : Array (Option Nat)) : Nat → Nat → Nat → List Nat → Option (Nat × List Nat)
+  | 0, _, _, _ => none
+  | fuel + 1, len, code, bits =>
+    match bits with
+    | [] => none
+    | b :: rest =>
+      match symbolOfT la tab (len + 1) (2 * code + b) with
+      | some s => some (s, rest)
+      | none => decodeSymT la tab fuel (len + 1) (2 * code + b) rest
+
 end Prefix
